@@ -57,7 +57,7 @@ def queries(tier, seed=0):
         shapes[str(q['shape'])] = q['shape']
     for sh in shapes.values():
         for fo in (False, True):
-            qs.append(dict(shape=sh, kind='initobs', target=[1, 0], level='env', fully_obs=fo))
+            qs.append(dict(shape=sh, kind='initobs', target=[1, 0], level='env', fully_obs=fo, no_reach=True))
     return qs
 
 
